@@ -142,3 +142,72 @@ fn u14_5_mccv_emission_layout() {
     assert!(buf[12] == b1 && buf[13] == g1 && buf[14] == r1 && buf[15] == a1, "colour 1 stored B,G,R,A");
     core::mem::forget(mccv);
 }
+
+// ------------------------------------------------------------------------------------ U14.6 MH2O instance offsets (E11 block)
+/// stand-ins for Mh2oEntry / VertexDataArray in the offset statements of write_mh2o_chunk (they use .get(idx), .as_ref(), .byte_size())
+pub struct VertexBytesP {
+    pub n: usize,
+}
+impl VertexBytesP {
+    pub fn byte_size(&self) -> usize {
+        self.n
+    }
+}
+pub struct WaterEntryP {
+    pub exists_bitmaps: Vec<Option<u64>>,
+    pub vertex_data: Vec<Option<VertexBytesP>>,
+}
+
+// write_mh2o_chunk emits, per map chunk with water: the n instance records, then for each instance its 8-byte exists bitmap (if any)
+// followed by its vertex data (if any).  The offset words written into instance i must therefore be: position after the n records
+// + the bytes of everything emitted for the instances before i (+ 8 for the vertex data when instance i has a bitmap) - whatever
+// layer_count the caller left in the header
+// @harness unit=U14.6 props=C14 kind=bounded bound="<= 3 liquid layers per map chunk; every bitmap/vertex presence, vertex byte count, header value" timeout=600 target="builder/serializer.rs: write_mh2o_chunk instance offset statements (E11 block)" oracle=adt_water
+#[kani::proof]
+#[kani::unwind(6)]
+#[kani::stub(alloc::fmt::format, stub_format)]
+fn u14_6_mh2o_instance_offsets() {
+    use crate::chunks::mh2o::Mh2oInstance;
+    let n: usize = kani::any();
+    kani::assume(n >= 1 && n <= 3);
+    let has_bm: [bool; 3] = kani::any();
+    let has_vd: [bool; 3] = kani::any();
+    let vd_len: [u16; 3] = kani::any();
+    let mut inst = Vec::with_capacity(3);
+    let mut bms = Vec::with_capacity(3);
+    let mut vds = Vec::with_capacity(3);
+    let mut i = 0;
+    while i < n {
+        inst.push(Mh2oInstance { liquid_type: 0, liquid_object_or_lvf: 0, min_height_level: 0.0, max_height_level: 0.0, x_offset: 0, y_offset: 0, width: 8, height: 8,
+            offset_exists_bitmap: kani::any(), offset_vertex_data: kani::any() });
+        bms.push(if has_bm[i] { Some(kani::any()) } else { None });
+        vds.push(if has_vd[i] { Some(VertexBytesP { n: vd_len[i] as usize }) } else { None });
+        i += 1;
+    }
+    let entry = WaterEntryP { exists_bitmaps: bms, vertex_data: vds };
+    let header = Mh2oHeader { offset_instances: kani::any(), layer_count: kani::any(), offset_attributes: kani::any() };
+    let data_start: u64 = kani::any();
+    let rel: u32 = kani::any();
+    kani::assume(data_start < (1 << 40) && rel < (1 << 30));
+    let current_pos = data_start + rel as u64;
+    blk_mh2o_instance_offsets(&mut inst, &entry, header, current_pos, data_start);
+    let mut at = rel as u64 + (n as u64) * 24;
+    let mut i = 0;
+    while i < n {
+        if has_bm[i] {
+            assert!(inst[i].offset_exists_bitmap as u64 == at, "bitmap offset = where the emission loop puts the bitmap of this layer");
+            at += 8;
+        } else {
+            assert!(inst[i].offset_exists_bitmap == 0, "no bitmap: offset 0");
+        }
+        if has_vd[i] {
+            assert!(inst[i].offset_vertex_data as u64 == at, "vertex data offset = where the emission loop puts the vertex data of this layer");
+            at += vd_len[i] as u64;
+        } else {
+            assert!(inst[i].offset_vertex_data == 0, "no vertex data: offset 0");
+        }
+        i += 1;
+    }
+    core::mem::forget(inst);
+    core::mem::forget(entry);
+}
